@@ -153,12 +153,24 @@ structure SS where
   q : List (List Cmd)
   honours : List Bool
   seen : Nat := 0          -- consumer results already reported
+  /-- per input: its `Close` is gated by the harness and has not been released yet (`crel i`). The
+  model's `closeInput` step is the *return* of `in[i].Close()`; while the gate is shut it is an
+  environment action, not an internal step. -/
+  slow : List Bool := []
   deriving BEq, Hashable
+
+/-- goroutine `i` is inside `in[i].Close()` and the harness has not released that call. -/
+def inSlowClose (m : SS) (i : Nat) : Bool :=
+  m.slow.getD i false &&
+    match m.s.gs[i]? with
+    | some g => (match g.pc with | .exiting (.closeInput :: _) => true | _ => false)
+    | none => false
 
 def sInternal (m : SS) : List SS :=
   let own := (internalLabels m.s).filterMap fun l =>
     match l with
     | .inCtx i => if m.honours.getD i false then (step m.s l).map fun s' => { m with s := s' } else none
+    | .exitStep i => if inSlowClose m i then none else (step m.s l).map fun s' => { m with s := s' }
     | _ => (step m.s l).map fun s' => { m with s := s' }
   let feed := (List.range m.s.k).filterMap fun i =>
     match m.q.getD i [] with
@@ -188,7 +200,8 @@ def sObs (m : SS) : String :=
   let gauge := joinWith "" (m.s.gs.map fun g => match g.pc with | .next => "1" | _ => "0")
   let nexts := joinWith "," (m.s.gs.map fun g => toString g.nexts)
   let closes := joinWith "," (m.s.gs.map fun g => toString g.closes)
-  s!"res={joinWith "," news} pend={pend} closeret={cret} gauge={gauge} nexts={nexts} closes={closes}"
+  let inclose := joinWith "" ((List.range m.s.k).map fun i => if inSlowClose m i then "1" else "0")
+  s!"res={joinWith "," news} pend={pend} closeret={cret} gauge={gauge} nexts={nexts} closes={closes} inclose={inclose}"
 
 def sApply (toks : List String) (m : SS) : List SS :=
   match toks with
@@ -197,6 +210,7 @@ def sApply (toks : List String) (m : SS) : List SS :=
   | ["push", i, "err", e] => [{ m with q := m.q.set (natOr i) (m.q.getD (natOr i) [] ++ [.err (natOr e)]) }]
   | ["cnext", l] => ((step m.s (.cCall (l == "live"))).map fun s' => { m with s := s' }).toList
   | ["close"] => ((step m.s .cClose).map fun s' => { m with s := s' }).toList
+  | ["crel", i] => [{ m with slow := m.slow.set (natOr i) false }]
   | _ => []
 
 def parseCmds (s : String) : List Cmd :=
@@ -206,11 +220,14 @@ def parseCmds (s : String) : List Cmd :=
     else .item (parseV t)
 
 /-- `init k <spec_0> … <spec_{k-1}>`: spec `g` = gated input honouring ctx; `i:<cmds>` = immediate
-input with the preloaded commands (`3,nil,end` / `e2`), ignoring ctx. -/
+input with the preloaded commands (`3,nil,end` / `e2`), ignoring ctx; a leading `s` (`sg`, `si:…`) =
+the input's `Close` does not return before the harness releases it (`crel i`). -/
 def sInit (k : Nat) (specs : List String) : SS :=
+  let slow := specs.map fun sp => sp.startsWith "s"
+  let specs := specs.map fun sp => if sp.startsWith "s" then (sp.drop 1).toString else sp
   let hon := specs.map fun sp => sp == "g"
   let q := specs.map fun sp => if sp.startsWith "i:" then parseCmds (sp.drop 2).toString else []
-  { s := init W k, q := q, honours := hon }
+  { s := init W k, q := q, honours := hon, slow := slow }
 
 def smergeStep (c : Conf SS) (toks : List String) : Conf SS × String :=
   if c.dead then (c, "dead") else
